@@ -153,7 +153,10 @@ func (s *objectStore) flush(db *DB) (err error) {
 }
 
 type DB struct {
-	l       sync.RWMutex
+	l sync.RWMutex
+	// protects the lazy loading of schemas, which can happen
+	// while only holding the read lock
+	sl      sync.Mutex
 	ctx     context.Context
 	cancel  context.CancelFunc
 	root    string
@@ -286,6 +289,10 @@ func (db *DB) safeCountPendingAsyncW(s *Schema, aw *Async) (n int, current bool)
 
 func (db *DB) schema(of Object) (s *Schema, err error) {
 	var ok bool
+
+	// several readers may need to load the schema at the same time
+	db.sl.Lock()
+	defer db.sl.Unlock()
 
 	if s, ok = db.schemas[stype(of)]; ok {
 		db.startAsyncWritesRoutine(s)
